@@ -4,6 +4,7 @@ use std::io::{BufRead, Write};
 
 mod compile;
 mod names;
+mod pkg;
 mod resolve;
 
 fn main() {
@@ -24,6 +25,13 @@ fn main() {
                 let v: serde_json::Value = serde_json::from_str(&line).unwrap();
                 let r = names::go_ident_case(&v);
                 writeln!(out, "{}", r).unwrap();
+            }
+        }
+        "discover" => {
+            for line in stdin.lock().lines() {
+                let line = line.unwrap();
+                let v: serde_json::Value = serde_json::from_str(&line).unwrap();
+                writeln!(out, "{}", pkg::discover_case(&v)).unwrap();
             }
         }
         "resolve" => {
